@@ -78,7 +78,28 @@ def main():
                         meta["confirmed"] = old["confirmed"]
                 except Exception:
                     pass
-            if confirm:
+            if confirm and os.path.exists(os.path.join(d, "demo.py")):
+                # binding-layer change: the demonstration is a python program driving the built extension module
+                c = {}
+                so = os.path.join(WT, "target", "release", "libpypipegraph2.so")
+
+                def build_and_demo():
+                    b = sh("cargo build --release --offline --lib 2>&1", cwd=WT)
+                    if b.returncode != 0:
+                        return None
+                    r = sh("%s %s/demo.py %s 2>&1" % (sys.executable, d, so), cwd=WT, timeout=600)
+                    return r.returncode
+
+                sh("git checkout -q -- . ; git clean -fdq -e target", cwd=WT)
+                c["demo_without_patch_exit"] = build_and_demo()
+                sh("git apply %s/patch.diff" % d, cwd=WT)
+                c["demo_with_patch_exit"] = build_and_demo()
+                p3, f3, _, _ = cargo_test(WT)
+                c["patch_only"] = {"passed": p3, "failed": f3}
+                sh("git checkout -q -- . ; git clean -fdq -e target", cwd=WT)
+                c["ok"] = bool(c["demo_without_patch_exit"] == 0 and c["demo_with_patch_exit"] not in (0, None) and p3 == 74 and f3 == 0)
+                meta["confirmed"] = c
+            elif confirm:
                 c = {}
                 sh("git checkout -q -- . ; git clean -fdq -e target", cwd=WT)
                 sh("git apply %s/demo.diff" % d, cwd=WT)
@@ -92,7 +113,7 @@ def main():
                 p3, f3, _, _ = cargo_test(WT)
                 c["patch_only"] = {"passed": p3, "failed": f3}
                 sh("git checkout -q -- . ; git clean -fdq -e target", cwd=WT)
-                c["ok"] = bool(f == 0 and p3 == 74 and f3 == 0 and f2 and f2 > 0 and p2 == 74 + (p - 74) - f2 and all(("seeded" in t or "c%s" % prop[1:] in t.lower() or True) for t in failed2))
+                c["ok"] = bool(f == 0 and p3 == 74 and f3 == 0 and f2 and f2 > 0 and p2 == 74 + (p - 74) - f2)
                 meta["confirmed"] = c
             # run the check against the patch applied to /repo
             r = sh("git apply %s/patch.diff" % d, cwd="/repo")
